@@ -110,7 +110,8 @@ Proof. intros <- H. change k with (fst (k, pre)). now apply in_map. Qed.
 
 Lemma p_prepare_PInv now h p tx ops : PInv p -> PInv (fst (p_prepare now h p tx ops)).
 Proof.
-  intros I. unfold p_prepare. destruct (try_lock now tx h (ptmo p) (map pop_key ops) (ptbl p)) as [t' [h'|o]]; cbn [fst]; [|exact I].
+  intros I. unfold p_prepare. destruct (mem tx (decidedp p)); [exact I|].
+  destruct (try_lock now tx h (ptmo p) (map pop_key ops) (ptbl p)) as [t' [h'|o]]; cbn [fst]; [|exact I].
   intros tx' e. cbn [prepared store dirty]. rewrite aget_aset. destruct (N.eqb_spec tx tx') as [<-|Hne].
   - intros [= <-]. cbn [p_undo p_ops]. split.
     + rewrite map_map. reflexivity.
@@ -120,7 +121,7 @@ Proof.
 Qed.
 
 Lemma p_prepare_store now h p tx ops : store (fst (p_prepare now h p tx ops)) = store p.
-Proof. unfold p_prepare. destruct (try_lock _ _ _ _ _ _) as [t' [h'|o]]; reflexivity. Qed.
+Proof. unfold p_prepare. destruct (mem tx (decidedp p)); [reflexivity|]. destruct (try_lock _ _ _ _ _ _) as [t' [h'|o]]; reflexivity. Qed.
 
 Lemma p_commit_PInv p tx : PInv p -> PInv (fst (p_commit p tx)).
 Proof.
@@ -810,4 +811,112 @@ Theorem abort_leaves_data_refuted :
 Proof.
   exists 100000, [([(0, 5)], 5)], undo_witness, 0.
   eexists. exists 1, 0. split; [vm_compute; reflexivity|]. vm_compute. discriminate.
+Qed.
+
+(* ================================================================== 5. a decision is applied at most once per shard *)
+(* the participant remembers what it has decided, and never holds a decided transaction as prepared *)
+Definition PD (p : part) : Prop := forall tx, In tx (decidedp p) -> aget (prepared p) tx = None.
+
+Lemma p_prepare_PD now h p tx ops : PD p -> PD (fst (p_prepare now h p tx ops)) /\ decidedp (fst (p_prepare now h p tx ops)) = decidedp p.
+Proof.
+  intros D. unfold p_prepare. destruct (mem tx (decidedp p)) eqn:M; [split; [exact D|reflexivity]|].
+  destruct (try_lock now tx h (ptmo p) (map pop_key ops) (ptbl p)) as [t' [h'|o]]; cbn [fst]; [|split; [exact D|reflexivity]].
+  split; [|reflexivity]. intros tx' Hin. cbn [prepared decidedp] in *. rewrite aget_aset.
+  destruct (N.eqb_spec tx tx') as [<-|]; [apply mem_nIn in M; contradiction|now apply D].
+Qed.
+
+Lemma p_commit_PD p tx : PD p -> PD (fst (p_commit p tx)) /\ incl (decidedp p) (decidedp (fst (p_commit p tx))) /\
+  (snd (p_commit p tx) = true -> aget (prepared p) tx <> None /\ In tx (decidedp (fst (p_commit p tx)))).
+Proof.
+  intros D. unfold p_commit. destruct (aget (prepared p) tx) as [e|] eqn:G; cbn [fst snd].
+  - split; [|split].
+    + intros tx' Hin. cbn [prepared decidedp] in *. rewrite aget_adel. destruct (N.eqb_spec tx tx'); [reflexivity|].
+      apply set_add_In in Hin. destruct Hin as [->|Hin]; [congruence|now apply D].
+    + intros z Hz. cbn. apply set_add_In. now right.
+    + intros _. split; [discriminate|]. cbn. apply set_add_In. now left.
+  - split; [exact D|]. split; [apply incl_refl|discriminate].
+Qed.
+
+Lemma p_abort_PD p tx : PD p -> PD (p_abort p tx) /\ incl (decidedp p) (decidedp (p_abort p tx)).
+Proof.
+  intros D. unfold p_abort. destruct (aget (prepared p) tx) as [e|] eqn:G.
+  - split.
+    + intros tx' Hin. cbn [prepared decidedp] in *. rewrite aget_adel. destruct (N.eqb_spec tx tx'); [reflexivity|].
+      apply set_add_In in Hin. destruct Hin as [->|Hin]; [congruence|now apply D].
+    + intros z Hz. cbn. apply set_add_In. now right.
+  - split.
+    + intros tx' Hin. cbn [prepared decidedp] in *. apply set_add_In in Hin. destruct Hin as [->|Hin]; [exact G|now apply D].
+    + intros z Hz. cbn. apply set_add_In. now right.
+Qed.
+
+Lemma nth_error_set_nth_eq {A} (l : list A) i x y : nth_error l i = Some y -> nth_error (set_nth l i x) i = Some x.
+Proof. revert i. induction l as [|a r IH]; intros i H; destruct i; cbn in *; try discriminate; auto. Qed.
+Lemma nth_error_set_nth_neq {A} (l : list A) i j x : i <> j -> nth_error (set_nth l i x) j = nth_error l j.
+Proof.
+  revert i j. induction l as [|a r IH]; intros i j Hne; [destruct i; reflexivity|].
+  destruct i, j; cbn; try reflexivity; try congruence. apply IH. congruence.
+Qed.
+
+Definition Inv2 (g : gst) : Prop :=
+  (forall p, In p (ps g) -> PD p) /\
+  (forall tx sh, In (tx, sh) (applied g) -> exists p, nth_part (ps g) sh = Some p /\ In tx (decidedp p)) /\
+  NoDup (applied g).
+
+Lemma Inv2_replace g sh p p' : Inv2 g -> nth_part (ps g) sh = Some p -> PD p' -> incl (decidedp p) (decidedp p') ->
+  (forall q, In q (set_nth (ps g) (N.to_nat sh) p') -> PD q) /\
+  (forall tx sh0, In (tx, sh0) (applied g) -> exists q, nth_part (set_nth (ps g) (N.to_nat sh) p') sh0 = Some q /\ In tx (decidedp q)).
+Proof.
+  intros [D [Q _]] Np D' Hi. split.
+  - intros q Hq. apply set_nth_In in Hq. destruct Hq as [->|Hq]; auto.
+  - intros tx sh0 Hin. destruct (Q tx sh0 Hin) as [q [Nq Hd]]. unfold nth_part in *.
+    destruct (Nat.eq_dec (N.to_nat sh) (N.to_nat sh0)) as [E|Hne].
+    + rewrite <- E in *. rewrite Np in Nq. injection Nq as <-. exists p'. split; [eapply nth_error_set_nth_eq; eauto|auto].
+    + exists q. split; [now rewrite nth_error_set_nth_neq|exact Hd].
+Qed.
+
+Lemma deliver_Inv2 g m : Inv2 g -> Inv2 (fst (deliver g m)).
+Proof.
+  intros I. pose proof I as [D [Q ND]]. destruct m as [tx sh ops|tx sh v|tx sh|tx sh]; cbn [deliver].
+  - destruct (nth_part (ps g) sh) as [p|] eqn:Np; [|exact I].
+    destruct (p_prepare_PD (gnow g) (gh g) p tx ops (D p (nth_part_In _ _ _ Np))) as [D' Ed].
+    destruct (p_prepare (gnow g) (gh g) p tx ops) as [p' v]. cbn [fst] in *.
+    destruct (Inv2_replace g sh p p' I Np D') as [A B]; [rewrite Ed; apply incl_refl|].
+    split; [exact A|]. split; [exact B|exact ND].
+  - destruct (c_vote (co g) tx sh v) as [c' r]. exact I.
+  - destruct (nth_part (ps g) sh) as [p|] eqn:Np; [|exact I].
+    destruct (p_commit_PD p tx (D p (nth_part_In _ _ _ Np))) as [D' [Hi Hok]].
+    destruct (p_commit p tx) as [p' ok]. cbn [fst snd] in *.
+    destruct (Inv2_replace g sh p p' I Np D' Hi) as [A B].
+    split; [exact A|]. cbn [ps applied]. destruct ok.
+    + destruct (Hok eq_refl) as [Hprep Hdec]. split.
+      * intros tx0 sh0 [[= <- <-]|Hin]; [|now apply B]. exists p'. split; [|exact Hdec].
+        unfold nth_part in *. eapply nth_error_set_nth_eq; eauto.
+      * constructor; [|exact ND]. intros Hin. destruct (Q tx sh Hin) as [q [Nq Hd]]. rewrite Np in Nq. injection Nq as <-.
+        apply Hprep. now apply (D p (nth_part_In _ _ _ Np)).
+    + split; [exact B|exact ND].
+  - destruct (nth_part (ps g) sh) as [p|] eqn:Np; [|exact I].
+    destruct (p_abort_PD p tx (D p (nth_part_In _ _ _ Np))) as [D' Hi].
+    destruct (Inv2_replace g sh p (p_abort p tx) I Np D' Hi) as [A B].
+    split; [exact A|]. split; [exact B|exact ND].
+Qed.
+
+Lemma gstep_Inv2 g e : Inv2 g -> Inv2 (fst (gstep g e)).
+Proof.
+  intros I. destruct e; cbn [gstep]; try exact I.
+  - destruct (nth_error (net g) (N.to_nat i)) as [m|]; [|exact I]. destruct keep; apply deliver_Inv2; exact I.
+  - destruct (c_commit (co g) tx) as [[c' r] shs]. exact I.
+  - destruct (c_abort (co g) tx) as [[c' r] shs]. exact I.
+  - destruct (aget (pending (co g)) tx) as [t|]; [|exact I]. destruct (mem sh (c_parts t) && _); [exact I|].
+    destruct (c_vote _ _ _ _). exact I.
+Qed.
+
+(* a transaction's writes are applied at most once on each shard, whatever is duplicated or delayed *)
+Theorem applied_once ctmo parts0 es : NoDup (applied (grun (start ctmo parts0) es)).
+Proof.
+  assert (G : forall es g, Inv2 g -> Inv2 (grun g es)).
+  { clear. induction es as [|e r IH]; intros g I; [exact I|].
+    change (grun g (e :: r)) with (grun (fst (gstep g e)) r). apply IH. now apply gstep_Inv2. }
+  apply G. split; [|split; [intros tx sh []|constructor]].
+  intros p Hp. unfold start, ginit, parts_init in Hp. cbn in Hp. apply in_map_iff in Hp. destruct Hp as [st [<- _]].
+  intros tx [].
 Qed.
